@@ -596,6 +596,12 @@ class Exec:
             return self.operand(st, rv)
         if rv.startswith("const "):
             return self.operand(st, rv)
+        m = re.fullmatch(r"(\{closure@[^}]+\})(?: \{ (.+) \})?", rv)
+        if m:
+            fields = split_top(m.group(2)) if m.group(2) else []
+            t = Tup([self.operand(st, f.split(":", 1)[1]) for f in fields])
+            t.sname = m.group(1)
+            return t
         m = re.fullmatch(r"[\w:]+(?:::<.+>)? \{ (.+) \}", rv)
         if m:
             fields = split_top(m.group(1))
@@ -933,6 +939,87 @@ def model_unwrap(ex, st, callee, args, ty):
     return [(s1, o.payload, "return", ""), (s2, None, "panic", "called `Option::unwrap()` on a `None` value")]
 
 
+def closure_fn(ex, clos):
+    """The MIR function implementing a closure value (a Tup tagged with its `{closure@...}` type)."""
+    c = val_of(clos)
+    tag = getattr(c, "sname", None)
+    if not isinstance(c, Tup) or not tag or not tag.startswith("{closure@"):
+        raise Unsupported(f"call of a non-closure value {c!r}"[:120])
+    for name, f in ex.fns.items():
+        if "{closure#" in name and f.args and f.args[0][1].replace("&mut ", "").replace("&", "") == tag:
+            by_ref = f.args[0][1].startswith("&")
+            return name, (Ref(Box_(c)) if by_ref and not isinstance(clos, (Ref, LocRef, FieldRef)) else (clos if by_ref else c))
+    raise Unsupported("closure body not in the dump: " + tag)
+
+
+def run_closure(ex, st, clos, extra):
+    name, recv = closure_fn(ex, clos)
+    return [(o.state, o.value, o.kind, o.msg) for o in ex.run(name, st, [recv] + list(extra), 1)]
+
+
+def split_opt(st, o):
+    """-> [(state, is_some)] for the feasible discriminants of an Opt."""
+    if o.some == "true":
+        return [(st, True)]
+    if o.some == "false":
+        return [(st, False)]
+    s1 = st.fork()
+    s1.pc.append(o.some)
+    s2 = st.fork()
+    s2.pc.append(f"(not {o.some})")
+    return [(s1, True), (s2, False)]
+
+
+def model_option_combinator(ex, st, callee, args, ty):
+    """Option::{and_then, map, unwrap_or_else, unwrap_or, map_or, is_some, is_none, ok_or-free subset} and
+    bool::then / then_some: the closure argument's MIR body is executed on the Some (true) path."""
+    meth = re.search(r"::(\w+)(?:::<.*>)?$", callee).group(1)
+    recv = val_of(args[0]) if not isinstance(args[0], (Opt, Bool)) else args[0]
+    outs = []
+    if "bool" in callee.split("::<")[0]:
+        if not isinstance(recv, Bool):
+            raise Unsupported(f"{meth} on {recv!r}"[:100])
+        s1 = st.fork(); s1.pc.append(recv.t)
+        s2 = st.fork(); s2.pc.append(f"(not {recv.t})")
+        if meth == "then":
+            for (s, v, k, msg) in run_closure(ex, s1, args[1], [Tup([])] if False else []):
+                outs.append((s, Opt("true", v), k, msg) if k == "return" else (s, v, k, msg))
+        else:  # then_some
+            outs.append((s1, Opt("true", args[1]), "return", ""))
+        outs.append((s2, Opt("false", Opaque("none")), "return", ""))
+        return outs
+    if not isinstance(recv, Opt):
+        raise Unsupported(f"Option::{meth} on {recv!r}"[:100])
+    if meth in ("is_some", "is_none"):
+        return m_ret(st, Bool(recv.some if meth == "is_some" else f"(not {recv.some})"))
+    for (s, some) in split_opt(st, recv):
+        if meth in ("and_then", "map"):
+            if not some:
+                outs.append((s, Opt("false", Opaque("none")), "return", ""))
+                continue
+            for (s2, v, k, msg) in run_closure(ex, s, args[1], [recv.payload]):
+                if k == "return" and meth == "map":
+                    v = Opt("true", v)
+                outs.append((s2, v, k, msg))
+        elif meth == "unwrap_or":
+            outs.append((s, recv.payload if some else args[1], "return", ""))
+        elif meth == "unwrap_or_else":
+            if some:
+                outs.append((s, recv.payload, "return", ""))
+            else:
+                outs += run_closure(ex, s, args[1], [])
+        elif meth == "map_or":
+            if some:
+                outs += run_closure(ex, s, args[2], [recv.payload])
+            else:
+                outs.append((s, args[1], "return", ""))
+        elif meth in ("unwrap_or_default",):
+            outs.append((s, recv.payload if some else Int("0"), "return", ""))
+        else:
+            raise Unsupported("Option::" + meth)
+    return outs
+
+
 def model_deref_vec(ex, st, callee, args, ty):
     tgt = val_of(args[0])
     if isinstance(tgt, Slice):
@@ -1081,6 +1168,23 @@ def model_ord_cmp(ex, st, callee, args, ty):
     return m_ret(st, EnumDisc(f"(ite (< {a.t} {b.t}) 255 (ite (= {a.t} {b.t}) 0 1))"))
 
 
+def model_tuple_cmp(ex, st, callee, args, ty):
+    """<(usize, usize) as PartialOrd / PartialEq / Ord>::{lt,le,gt,ge,eq,ne,cmp}: lexicographic."""
+    a, b = val_of(args[0]), val_of(args[1])
+    a, b = val_of(a), val_of(b)
+    if not (isinstance(a, Tup) and isinstance(b, Tup) and len(a.fs) == 2 and len(b.fs) == 2 and all(isinstance(f, Int) for f in a.fs + b.fs)):
+        raise Unsupported("tuple comparison of " + repr(a)[:60])
+    a0, a1, b0, b1 = a.fs[0].t, a.fs[1].t, b.fs[0].t, b.fs[1].t
+    lt = f"(or (< {a0} {b0}) (and (= {a0} {b0}) (< {a1} {b1})))"
+    eq = f"(and (= {a0} {b0}) (= {a1} {b1}))"
+    meth = callee.split("::")[-1]
+    if meth == "cmp" or meth == "partial_cmp":
+        d = EnumDisc(f"(ite {lt} 255 (ite {eq} 0 1))")
+        return m_ret(st, d if meth == "cmp" else Opt("true", d))
+    t = {"lt": lt, "le": f"(or {lt} {eq})", "gt": f"(not (or {lt} {eq}))", "ge": f"(not {lt})", "eq": eq, "ne": f"(not {eq})"}[meth]
+    return m_ret(st, Bool(t))
+
+
 def model_range_iter(kind):
     def h(ex, st, callee, args, ty):
         r = args[0]
@@ -1120,6 +1224,7 @@ def model_pure(ex, st, callee, args, ty):
 STD_MODELS = [
     (r"^Arguments::<'_>::(from_str|new_const|new_v1|new)", model_pure),
     (r"^<usize as Ord>::cmp$", model_ord_cmp),
+    (r"^<\(usize, usize\) as (PartialOrd|PartialEq|Ord)>::(lt|le|gt|ge|eq|ne|cmp)$", model_tuple_cmp),
     (r"^<core::ops::Range<usize> as IntoIterator>::into_iter$|^<Rev<core::ops::Range<usize>> as IntoIterator>::into_iter$", model_range_iter("into_iter")),
     (r"^<core::ops::Range<usize> as Iterator>::rev$", model_range_iter("rev")),
     (r"^<core::ops::Range<usize> as Iterator>::next$", model_range_iter("next")),
@@ -1145,6 +1250,8 @@ STD_MODELS = [
     (r"num::<impl usize>::wrapping_add", model_wrapping("add")),
     (r"num::<impl usize>::wrapping_sub", model_wrapping("sub")),
     (r"Option::<.*>::unwrap$|Option::<.*>::expect$", model_unwrap),
+    (r"^(core::option::)?Option::<usize>::(and_then|map|unwrap_or|unwrap_or_else|map_or|is_some|is_none|unwrap_or_default)(::<.*>)?$", model_option_combinator),
+    (r"^core::bool::<impl bool>::(then|then_some)::<usize", model_option_combinator),
     (r"<Vec<.*> as Deref>::deref$|<Vec<.*> as DerefMut>::deref_mut$|Vec::<.*>::as_slice|Vec::<.*>::as_mut_slice", model_deref_vec),
     (r"Vec::<.*>::len$|slice::<impl \[.*\]>::len$", model_len),
     (r"slice::<impl \[.*\]>::is_empty$", model_is_empty),
